@@ -219,7 +219,7 @@ class Gen:
     """generates (input-form value, python constructor data) for a TX.
     refchoice(tx_ref, b) -> ("null",) | ("alias", at, tid, handle) | ("new", tid) | ("foreign", tid, (b2, a2), handle)"""
 
-    def __init__(self, ns, rng, refchoice=None, maxdim=3, np_forms=True, allow_uninit=False, mindim=0, capacity_p=0.15, lookup=None, dims_p=0.1, xobj=None):
+    def __init__(self, ns, rng, refchoice=None, maxdim=3, np_forms=True, allow_uninit=False, mindim=0, capacity_p=0.15, lookup=None, dims_p=0.1, xobj=None, xobj_p=0.12):
         self.mindim = mindim
         self.ns, self.rng, self.refchoice, self.maxdim, self.np_forms = ns, rng, refchoice, maxdim, np_forms
         self.shorter_strings = True
@@ -227,6 +227,7 @@ class Gen:
         self.lookup = lookup
         self.dims_p = dims_p
         self.xobj = xobj
+        self.xobj_p = xobj_p
 
     def shape(self, tx, inarr=False):
         sh = [d if d >= 0 else max(self.mindim, self.rng.choice([0, 1, 1, 2, 2, 3][: self.maxdim + 3])) for d in tx["sh"]]
@@ -261,7 +262,7 @@ class Gen:
                 return strval(b"", n), n
             s = rng.choice(STRINGS)
             return strval(s.encode("utf8"), natural_cap(len(s.encode()))), s
-        if k in ("struct", "arr") and not _top and not _noxobj and like is None and self.xobj is not None and rng.random() < 0.12:
+        if k in ("struct", "arr") and not _top and not _noxobj and like is None and self.xobj is not None and rng.random() < self.xobj_p:
             got = self.xobj(tx, b)           # "another xobject" as the value of a nested part: the part becomes a copy of it
             if got is not None:
                 return got
@@ -281,7 +282,21 @@ class Gen:
                         for i, w in zip(idxs, vals):
                             like[i] = w
             vs = [self.value(f, b, None if like is None else like[i], False, _inarr) for i, f in enumerate(tx["f"])]
-            return [v[0] for v in vs], {self.ns.fname(i): v[1] for i, v in enumerate(vs)}
+            omit = set()
+            if like is None and getattr(self, "omit_p", 0.08):
+                # fields left out of the dictionary: the constructor supplies the natural default (zero, zeros, no referent)
+                for i, f in enumerate(tx["f"]):
+                    if rng.random() < getattr(self, "omit_p", 0.08):
+                        if f["k"] == "sc":
+                            vs[i] = ([0] * f["w"], None)
+                        elif f["k"] == "arr" and f["it"]["k"] == "sc" and all(d >= 0 for d in f["sh"]):
+                            vs[i] = ({"sh": list(f["sh"]), "it": [[0] * f["it"]["w"] for _ in range(int(np.prod(f["sh"])))]}, None)
+                        elif f["k"] in ("ref", "uref"):
+                            vs[i] = ({"r": "null"}, None)
+                        else:
+                            continue
+                        omit.add(i)
+            return [v[0] for v in vs], {self.ns.fname(i): v[1] for i, v in enumerate(vs) if i not in omit}
         if k == "arr":
             sh = list(like["sh"]) if like is not None else self.shape(tx, _inarr)
             n = int(np.prod(sh))
